@@ -38,7 +38,8 @@ def discover(only):
             continue
         for fn in sorted(os.listdir(d)):
             if fn.endswith('.diff'):
-                out.append({'name': '%s/%s' % (prop, fn[:-5]), 'props': [prop], 'patch': os.path.join(d, fn),
+                out.append({'name': '%s/%s' % (prop, fn[:-5]), 'props': [prop] if prop != 'ALL' else ['C%02d' % k for k in range(1, 21)],
+                            'patch': os.path.join(d, fn),
                             'equiv': fn.endswith('.equiv.diff')})
     sroot = os.path.join(VERIF, 'seeded')
     for name in sorted(os.listdir(sroot)) if os.path.isdir(sroot) else []:
